@@ -310,6 +310,9 @@ class Input(object):
                 sigs_required = script.sigs_required
             if len(script.script_types) == 1 and not self.script_type:
                 self.script_type = script.script_types[0]
+                if self.script_type == 'p2tr_unlock':
+                    # A taproot input has an empty unlocking script, this is a script with a single data push
+                    self.script_type = 'unknown'
         if self.locking_script and not self.signatures:
             ls = Script.parse_bytes(self.locking_script, is_locking=True, strict=strict)
             self.public_hash = self.public_hash if not ls.public_hash else ls.public_hash
